@@ -7,6 +7,7 @@ from ...propagators.dmevolution import ReducedDensityMatrixEvolution
 from ...liouvillespace.liouvillian import Liouvillian
 from ...liouvillespace.supopunity import SOpUnity
 from .... import COMPLEX, REAL
+from ....core.managers import energy_units
 
 class IntegrodiffPropagator:
     """Solver of integrodifferential equations
@@ -122,7 +123,8 @@ class IntegrodiffPropagator:
             unity = SOpUnity(dim=self.ham.dim).data                
             
             # Liouvillian
-            LL = Liouvillian(self.ham).data
+            with energy_units("int"):
+                LL = Liouvillian(self.ham).data
             
             if self._kernel is not None:
                 with_kernel = True
@@ -310,7 +312,8 @@ class IntegrodiffPropagator:
         """ Right-hand side of the master equation 
         
         """
-        ham = self.ham.data
+        with energy_units("int"):
+            ham = self.ham.data
         drho = -1j*(numpy.dot(ham, rho) - numpy.dot(rho, ham))
         drho += -self._convolution_with_kernel(tn, rho, rhot)
         
@@ -323,7 +326,8 @@ class IntegrodiffPropagator:
         """
         #M0 = self.kernel
         
-        ham = self.ham.data
+        with energy_units("int"):
+            ham = self.ham.data
         drho = -1j*(numpy.dot(ham, rho) - numpy.dot(rho, ham))
         #drho += -self.timeaxis.stop*M0*numpy.sum(rhot.data[:,:,:],axis=0)
         
